@@ -324,7 +324,14 @@ pub fn run_history(opt: &OptSet, hops: &[Hop]) -> Result<Run, String> {
 }
 
 fn run_history_ext(opt: &OptSet, hops: &[Hop], ignore_order: bool) -> Result<Run, String> {
+	run_history_full(opt, hops, ignore_order, false)
+}
+
+/// `hold_reader`: a read transaction is begun after the first write and kept open to the end, so
+/// that every later compaction runs with a registered snapshot.
+fn run_history_full(opt: &OptSet, hops: &[Hop], ignore_order: bool, hold_reader: bool) -> Result<Run, String> {
 	let mut w = World::new(opt.clone(), &KEYS)?;
+	let mut held: Option<Transaction> = None;
 	let mut model = VersionModel::default();
 	let mut all_ts = vec![];
 	let mut run = Run {
@@ -358,8 +365,14 @@ fn run_history_ext(opt: &OptSet, hops: &[Hop], ignore_order: bool) -> Result<Run
 				drop(txn);
 				model.apply(*kind, key, *ts, &val);
 				all_ts.push(*ts);
+				if hold_reader && held.is_none() {
+					held = Some(w.tree().begin_with_mode(Mode::ReadOnly).map_err(|e| format!("{e}"))?);
+				}
 			}
 			Hop::P(p) => {
+				if *p == Phys::Reopen {
+					held = None;
+				}
 				if let Err(e) = w.physical(*p) {
 					run.failure = Some((format!("op-error:{}:{}", p.as_str(), crate::props::norm_msg(&e)), format!("step {i} {}: {e}", hop_str(h))));
 					return Ok(run);
@@ -381,6 +394,7 @@ fn run_history_ext(opt: &OptSet, hops: &[Hop], ignore_order: bool) -> Result<Run
 			run.log_hash_after_writes.push(crate::util::fnv64(log.as_bytes()));
 		}
 	}
+	drop(held);
 	Ok(run)
 }
 
@@ -759,6 +773,38 @@ pub fn check(tier: Tier) -> i32 {
 			break;
 		}
 	}
+	// --- part 1b: the same histories with a read transaction held open (a registered snapshot
+	// must not make compaction drop versions that the retention policy keeps) ---
+	if all_complete {
+		let (n, d) = if tier == Tier::Quick { (3, 2) } else { (4, 2) };
+		let lists = gen(n, d, &[Kind::Set, Kind::SoftDelete, Kind::Replace], &[Phys::FlushAll, Phys::Compact]);
+		let found: Mutex<Vec<(usize, String, String, &'static str)>> = Mutex::new(vec![]);
+		lists.par_iter().enumerate().for_each(|(i, l)| {
+			for (opt, name) in [(&lsm, "lsm"), (&idx, "index")] {
+				match crate::util::guarded(|| run_history_full(opt, l, false, true)) {
+					Ok(Ok(run)) => {
+						if let Some((c, t)) = run.failure {
+							found.lock().unwrap().push((i, format!("reader-open:{name}:{c}"), t, name));
+						}
+					}
+					Ok(Err(e)) => found.lock().unwrap().push((i, "machinery".into(), e, name)),
+					Err(p) => found.lock().unwrap().push((i, format!("reader-open:{name}:panic:{}", crate::props::norm_msg(&p)), p, name)),
+				}
+			}
+		});
+		evaluations += 2 * lists.len() as u64;
+		completed.push(format!("reader held open: all {} histories (n={n}, d={d}, flush/compaction) x 2 back-ends with a read transaction begun after the first write and kept open", lists.len()));
+		let mut found = found.into_inner().unwrap();
+		found.sort_by_key(|f| f.0);
+		for (i, c, t, name) in found {
+			if c == "machinery" {
+				eprintln!("machinery: {t}");
+				return 2;
+			}
+			*per_class.entry(c.clone()).or_default() += 1;
+			first.entry(c).or_insert((format!("[{name}, reader open] {} => {t}", hops_str(&lists[i])), json!({"engine": "c10", "backend": name, "reader_open": true, "hops": hops_json(&lists[i])})));
+		}
+	}
 	// --- part 2: out-of-order timestamps (set-only), both back-ends ---
 	{
 		let (n, d) = if tier == Tier::Quick { (3, 2) } else { (3, 3) };
@@ -770,7 +816,9 @@ pub fn check(tier: Tier) -> i32 {
 				match crate::util::guarded(|| run_history(opt, l)) {
 					Ok(Ok(run)) => {
 						if let Some((c, t)) = run.failure {
-							if run.unflushed_at_failure {
+							// only the history listing / range filter is the recorded finding; a wrong
+							// get_at with unflushed versions is something else
+							if run.unflushed_at_failure && c.starts_with("history") {
 								// root cause (known finding): memtable-resident versions are in commit
 								// order, not timestamp order; look past it with everything flushed
 								found.lock().unwrap().push((i, format!("out-of-order:{name}:unflushed-versions-not-in-timestamp-order"), format!("{c}: {t}")));
